@@ -709,9 +709,17 @@ func (b *caseBuilder) validateInput(n *Node, pp string, v reflect.Value, path st
 	case KSlice:
 		cnt := b.elems
 		shape := 0
+		aliased := false
 		if b.a.Full {
-			if b.pick(unit, "in", 2) == 1 {
+			nOpt := 2
+			if n.Elem.Kind == KPtr {
+				nOpt = 3 // also: every element is the SAME pointer (a value with sharing)
+			}
+			switch b.pick(unit, "in", nOpt) {
+			case 1:
 				shape = 3
+			case 2:
+				aliased = true
 			}
 		} else {
 			shape = b.pick(unit, "in", slValidateN)
@@ -731,6 +739,11 @@ func (b *caseBuilder) validateInput(n *Node, pp string, v reflect.Value, path st
 		s := reflect.MakeSlice(v.Type(), cnt, cnt)
 		for i := 0; i < cnt; i++ {
 			b.validateInput(n.Elem, fmt.Sprintf("%s.%d", pp, i), s.Index(i), fmt.Sprintf("%s[%d]", path, i))
+		}
+		if aliased {
+			for i := 1; i < cnt; i++ {
+				s.Index(i).Set(s.Index(0))
+			}
 		}
 		v.Set(s)
 	case KPtr:
